@@ -57,6 +57,96 @@ def _one(args):
         return (kind, name, "silent", "")
 
 
+import ast
+
+
+def _rename_source(src: str, fn: ast.AST, suffix="_rn"):
+    """Source with every local variable of `fn` renamed (behaviour preserving), or None if unsafe."""
+    args = {a.arg for a in ast.walk(fn) if isinstance(a, ast.arg)}
+    banned = set(args)
+    for n in ast.walk(fn):
+        if isinstance(n, (ast.Global, ast.Nonlocal)):
+            banned.update(n.names)
+        if isinstance(n, ast.Call) and isinstance(n.func, ast.Name) and n.func.id in ("locals", "vars", "eval", "exec"):
+            return None
+        if isinstance(n, (ast.FunctionDef, ast.AsyncFunctionDef, ast.ClassDef)) and n is not fn:
+            banned.add(n.name)
+        if isinstance(n, (ast.Import, ast.ImportFrom)):
+            for a in n.names:
+                banned.add((a.asname or a.name).split(".")[0])
+    locs = {n.id for n in ast.walk(fn) if isinstance(n, ast.Name) and isinstance(n.ctx, ast.Store)} - banned
+    if not locs:
+        return None
+    import copy
+    fn2 = copy.deepcopy(fn)
+    for n in ast.walk(fn2):
+        if isinstance(n, ast.Name) and n.id in locs:
+            n.id = n.id + suffix
+    new = ast.unparse(fn2)
+    lines = src.splitlines(keepends=True)
+    start = min([fn.lineno] + [d.lineno for d in fn.decorator_list]) - 1
+    end = fn.end_lineno
+    indent = " " * fn.col_offset
+    body = "".join(indent + ln + "\n" if ln.strip() else "\n" for ln in new.splitlines())
+    return "".join(lines[:start]) + body + "".join(lines[end:])
+
+
+def _rename_one(args):
+    prop_id, rel, qual, root, base_viol = args
+    from . import props
+    propmod = props.load(prop_id)
+    repo = Repo(root)
+    try:
+        m = repo.mod(rel)
+        fn = m.functions.get(qual)
+        if fn is None or not isinstance(fn, (ast.FunctionDef, ast.AsyncFunctionDef)):
+            return ("rename", "%s:%s" % (rel, qual), "skipped", "not a function")
+        new = _rename_source(m.source, fn)
+        if new is None:
+            return ("rename", "%s:%s" % (rel, qual), "skipped", "nothing to rename / unsafe")
+        compile(new, rel, "exec")
+        mrepo = Repo(root, {rel: new})
+        ctx = run_rules(mrepo, propmod, "thorough")
+    except AnalysisError as e:
+        return ("rename", "%s:%s" % (rel, qual), "error", "renaming locals made the analyser undecided: %s" % str(e).splitlines()[0])
+    except SyntaxError as e:
+        return ("rename", "%s:%s" % (rel, qual), "skipped", "unparse artefact: %s" % e)
+    new_v = [i for i in ctx.violations() if (i.rule, i.anchor, i.key) not in base_viol]
+    if new_v:
+        return ("rename", "%s:%s" % (rel, qual), "alarm", "; ".join("%s [%s] %s" % (i.rule, i.key, i.msg[:80]) for i in new_v[:3]))
+    return ("rename", "%s:%s" % (rel, qual), "silent", "")
+
+
+def rename_tasks(repo, propmod, base_ctx, base_viol):
+    out = []
+    for fq in sorted(base_ctx.functions_seen):
+        rel, _, qual = fq.partition(":")
+        if not rel.endswith(".py") or not qual:
+            continue
+        # only outermost functions: a nested function is renamed together with its parent
+        parts = qual.split(".")
+        try:
+            m = repo.mod(rel)
+        except AnalysisError:
+            continue
+        outer = None
+        for i in range(1, len(parts) + 1):
+            q = ".".join(parts[:i])
+            if q in m.functions:
+                outer = q
+                break
+        if outer is None:
+            continue
+        out.append((propmod.ID, rel, outer, repo.root, base_viol))
+    seen = set()
+    uniq = []
+    for t in out:
+        if t[1:3] not in seen:
+            seen.add(t[1:3])
+            uniq.append(t)
+    return uniq
+
+
 def run_selftest(repo: Repo, propmod, base_ctx, jobs: int = None) -> dict:
     base_viol = _viol_set(base_ctx)
     tasks = []
@@ -65,12 +155,15 @@ def run_selftest(repo: Repo, propmod, base_ctx, jobs: int = None) -> dict:
     for t in getattr(propmod, "TWINS", []):
         tasks.append(("twin", propmod.ID, t.name, t.edits, None, None, repo.root, base_viol, "thorough"))
     results = []
+    rtasks = rename_tasks(repo, propmod, base_ctx, base_viol) if not repo.overrides else []
     jobs = jobs or min(16, os.cpu_count() or 4)
-    if len(tasks) > 3 and jobs > 1:
+    if len(tasks) + len(rtasks) > 3 and jobs > 1:
         with ProcessPoolExecutor(max_workers=jobs) as ex:
-            results = list(ex.map(_one, tasks))
+            f1 = [ex.submit(_one, t) for t in tasks]
+            f2 = [ex.submit(_rename_one, t) for t in rtasks]
+            results = [f.result() for f in f1] + [f.result() for f in f2]
     else:
-        results = [_one(t) for t in tasks]
+        results = [_one(t) for t in tasks] + [_rename_one(t) for t in rtasks]
     out = dict(mutants=0, caught=0, twins=0, silent=0, skipped=[], missed=[], twin_alarms=[], errors=[], report=[], detail=[])
     for kind, name, status, info in results:
         out["detail"].append(dict(kind=kind, name=name, status=status, info=info))
@@ -86,6 +179,20 @@ def run_selftest(repo: Repo, propmod, base_ctx, jobs: int = None) -> dict:
             else:
                 out["errors"].append(name)
                 out["report"].append("SELFTEST mutant %s ERROR: %s" % (name, info))
+        elif kind == "rename":
+            out.setdefault("renames", 0)
+            out.setdefault("renames_silent", 0)
+            out["renames"] += 1
+            if status == "silent":
+                out["renames_silent"] += 1
+            elif status == "skipped":
+                out["skipped"].append("rename:" + name)
+            elif status == "alarm":
+                out["twin_alarms"].append("rename:" + name)
+                out["report"].append("SELFTEST renaming the locals of %s raised a false alarm: %s" % (name, info))
+            else:
+                out["errors"].append("rename:" + name)
+                out["report"].append("SELFTEST renaming the locals of %s: %s" % (name, info))
         else:
             out["twins"] += 1
             if status == "silent":
@@ -99,6 +206,6 @@ def run_selftest(repo: Repo, propmod, base_ctx, jobs: int = None) -> dict:
                 out["errors"].append(name)
                 out["report"].append("SELFTEST twin %s ERROR: %s" % (name, info))
     out["report"].append(
-        "selftest %s: %d/%d mutants caught, %d/%d twins silent, %d skipped" % (
-            propmod.ID, out["caught"], out["mutants"], out["silent"], out["twins"], len(out["skipped"])))
+        "selftest %s: %d/%d mutants caught, %d/%d twins silent, %d/%d local-rename twins silent, %d skipped" % (
+            propmod.ID, out["caught"], out["mutants"], out["silent"], out["twins"], out.get("renames_silent", 0), out.get("renames", 0), len(out["skipped"])))
     return out
